@@ -175,8 +175,48 @@ def run(ctx) -> None:
                  "collection iterates over the ready list", process, coll,
                  "collection loop does not iterate over the refs returned as ready")
     else:
-        raise AnalysisError("process(): collection idiom not recognised (neither `ready & ~collected` nor shrinking "
-                            "pending list)")
+        # idiom C: a set of already collected indices guards the collection
+        from ..sem import Sem
+        PS_ = Sem(idx, process)
+        get_stmt = enclosing(pm, gets[0], ast.stmt)
+        seen = None
+        for t_, p_, _ in PS_.conditions(get_stmt, resolve=False):
+            e_ = ast.parse(t_, mode="eval").body
+            if p_ is False and isinstance(e_, ast.Compare) and len(e_.ops) == 1 and isinstance(e_.ops[0], ast.In) and isinstance(e_.comparators[0], ast.Name) \
+                    and norm(e_.left) == norm(coll.target):
+                seen = e_.comparators[0].id
+        if seen is None:
+            raise AnalysisError("process(): collection idiom not recognised (neither `ready & ~collected`, a shrinking pending list, "
+                                "nor a set of collected indices guarding the collection)")
+        r1.idiom("idiom C: indices already collected are kept in a set that guards the collection")
+        sl, _, _ = du.backward_slice(coll.iter, cfg.node(coll))
+        r1.check(any(ready_name in names_in(e) for e in sl), "collection iterates over indices derived from the ready list", process, coll,
+                 "the collection loop does not iterate over the refs returned as ready")
+        init = [d for d in du.reaching(seen, cfg.node(loop)) if d.node not in loop_nodes]
+        r1.check(len(init) == 1 and init[0].value is not None and norm(init[0].value) in ("set()", "[]", "list()"), f"`{seen}` starts empty", process,
+                 init[0].stmt if init else loop, f"`{seen}` does not start as an empty set")
+        grow, shrink = [], []
+        for s_ in ast.walk(loop):
+            if isinstance(s_, ast.stmt) and in_body(loop.body, s_):
+                if isinstance(s_, ast.Assign) and any(is_name(t, seen) for t in store_targets(s_)):
+                    (grow if (isinstance(s_.value, ast.BinOp) and isinstance(s_.value.op, ast.BitOr) and (is_name(s_.value.left, seen) or is_name(s_.value.right, seen))) else shrink).append(s_)
+                if isinstance(s_, ast.AugAssign) and is_name(s_.target, seen):
+                    (grow if isinstance(s_.op, ast.BitOr) else shrink).append(s_)
+                if isinstance(s_, ast.Expr) and isinstance(s_.value, ast.Call) and isinstance(s_.value.func, ast.Attribute) and is_name(s_.value.func.value, seen):
+                    (grow if s_.value.func.attr in ("update", "add", "append", "extend") else shrink).append(s_)
+        for s_ in shrink:
+            r1.violation(process, s_, f"`{seen}` (the set of already-collected remotes) is overwritten / shrunk inside the ray.wait loop; ray.wait may omit a ref it "
+                         f"returned earlier, so that ref is collected and added to the sum a second time when it re-appears")
+        if not grow:
+            r1.violation(process, loop, f"`{seen}` is never updated inside the ray.wait loop: every ready remote is re-collected on every pass",
+                         stmt=f"while-loop around {norm1(wait, 50)}")
+        for s_ in grow:
+            # everything collected in this pass must be recorded: the update adds the loop index itself or the iterated index list
+            a_ = s_.value.args[0] if isinstance(s_, ast.Expr) and s_.value.args else (s_.value if isinstance(s_, ast.AugAssign) else None)
+            okg = a_ is not None and (norm(a_) == norm(coll.iter) or (norm(a_) == norm(coll.target) and in_body(coll.body, s_)) or
+                                       norm(PS_.resolve(a_, cfg.node(s_))) == norm(PS_.resolve(coll.iter, cfg.node(coll))))
+            r1.check(okg, f"`{norm1(s_)}` records exactly the indices collected in this pass", process, s_,
+                     f"`{norm1(s_)}` does not record the indices that were collected in this pass")
 
     # ---------------------------------------------------------------- R12.2
     r2 = ctx.rule("R12.2", "result ↔ K-point pairing and sibling accumulation", min_instances=2)
@@ -202,10 +242,22 @@ def run(ctx) -> None:
             src_list = gen.iter.id
     if src_list is None:
         raise AnalysisError("process(): remotes list is not `[f.remote(K, …) for K in <list>]`")
-    srs = [c for c in calls(coll, "set_result", suffix=False)]
+    nested_ = nested_functions(process.node)
+    modf = process.module.functions
+
+    def store_helper_calls(root):
+        out_ = []
+        for c_ in ast.walk(root):
+            if isinstance(c_, ast.Call) and isinstance(c_.func, ast.Name) and len(c_.args) >= 2 and (c_.func.id in nested_ or (c_.func.id in modf and c_.func.id.startswith("_"))):
+                hn = nested_.get(c_.func.id) or modf[c_.func.id].node
+                if any(isinstance(x, ast.Call) and isinstance(x.func, ast.Attribute) and x.func.attr == "set_result" for x in ast.walk(hn)):
+                    out_.append(c_)
+        return out_
+    srs = store_helper_calls(coll)
     if len(srs) != 1:
-        raise AnalysisError("process(): expected one set_result(K, res) call in the collection loop")
+        raise AnalysisError("process(): expected one call of the per-K store helper (K.set_result + weighted read) in the collection loop")
     sr = srs[0]
+    helper_name = sr.func.id
     karg, resarg = sr.args[0], sr.args[1]
     kval = du.resolve_local(karg, du.node_of_expr(sr))
     okpair = isinstance(kval, ast.Subscript) and is_name(kval.value, src_list) and is_name(kval.slice, ivar)
@@ -218,12 +270,12 @@ def run(ctx) -> None:
              f"value stored by set_result is `{norm1(rval)}`, not the fetched `{norm1(get)}`")
     # serial arm
     ser_loops = [s for s in stmts(process.node) if isinstance(s, ast.For) and not in_body([loop], s)
-                 and calls(s, "set_result", suffix=False)]
+                 and store_helper_calls(s)]
     if len(ser_loops) != 1:
         raise AnalysisError("process(): serial evaluation loop not found")
     ser = ser_loops[0]
     r2.instance(f"{process.short}: serial arm")
-    ssr = calls(ser, "set_result", suffix=False)[0]
+    ssr = store_helper_calls(ser)[0]
     kname = ssr.args[0]
     rv = du.resolve_local(ssr.args[1], du.node_of_expr(ssr))
     okser = isinstance(rv, ast.Call) and rv.args and same(rv.args[0], kname) and isinstance(kname, ast.Name) \
@@ -254,10 +306,10 @@ def run(ctx) -> None:
 
     # ---------------------------------------------------------------- R12.4
     r4 = ctx.rule("R12.4", "per-K helper: store → weighted read → clear/dump")
-    inner = nested_functions(process.node).get("set_result")
+    inner = nested_.get(helper_name) or (modf[helper_name].node if helper_name in modf else None)
     if inner is None:
-        raise AnalysisError("process(): nested helper set_result not found")
-    r4.instance(f"{process.short}.set_result")
+        raise AnalysisError("process(): per-K store helper not found")
+    r4.instance(f"{process.short}.{helper_name}")
     icfg, idu, ipm = fctx(inner)
     kp = inner.args.args[0].arg
     st_calls = [c for c in method_calls(inner, "set_result") if is_name(c.func.value, kp)]
@@ -306,34 +358,44 @@ def check_reorder(ctx, rid: str) -> None:
             continue
         c = cs[0]
         r3.instance(f"{runf.short}: {norm1(c)}")
-        fl = None
-        for cand in enclosing_all(pm, c, ast.For):
-            fl = cand  # outermost enclosing for
+        from ..sem import Sem as _S
+        RS_ = _S(idx, runf)
+        cst = enclosing(pm, c, ast.stmt)
+        fl = enclosing(pm, c, ast.For)
         if fl is None:
             raise AnalysisError(f"run(): .{meth}() is not inside a loop over the results")
-        itn = norm(fl.iter)
-        r3.check(itn.startswith(f"{retname}.results.") or itn == f"{retname}.results", f"loop covers all entries of "
-                 f"{retname}.results", runf, fl, f"the re-ordering loop iterates `{itn}`, not every entry of the returned "
+        recv = norm(c.func.value)
+        # what the loop runs over: the results dictionary itself, or a list filtered from it
+        it = fl.iter
+        filt: List[str] = []
+        src = norm(it)
+        elem = recv
+        if isinstance(it, ast.Name):
+            dd = du.single_def(it.id, cfg.node(fl))
+            if dd is not None and isinstance(dd.value, (ast.ListComp, ast.GeneratorExp)) and len(dd.value.generators) == 1:
+                ge = dd.value.generators[0]
+                if norm(dd.value.elt) in [norm(x) for x in ast.walk(ge.target) if isinstance(x, ast.Name)]:
+                    src = norm(ge.iter)
+                    elem_c = norm(dd.value.elt)
+                    filt = [norm(x).replace(elem_c, recv) for x in ge.ifs]
+        r3.check(src.startswith(f"{retname}.results.") or src == f"{retname}.results", f"loop covers all entries of "
+                 f"{retname}.results", runf, fl, f"the re-ordering loop iterates `{src}`, not every entry of the returned "
                  f"`{retname}.results`")
-        # guards between the loop and the call: only isinstance tests on the value / the grid
-        guards = [g for g in enclosing_all(pm, c, ast.If) if in_body(fl.body, g)]
-        okg = True
-        for g in guards:
-            t = g.test
-            if not (isinstance(t, ast.Call) and call_name(t) == "isinstance"):
-                okg = False
-            elif in_body(g.orelse, c) and not isinstance(g.orelse[0], ast.If):
-                okg = False
-        gtexts = [norm(g.test) for g in guards if in_body(g.body, c) or True]
-        r3.check(okg and any("TABresult" in t for t in gtexts) and any(gridcls in t for t in gtexts),
-                 f".{meth}() is applied to every TABresult when the k-set is a {gridcls}", runf, c,
-                 f".{meth}() is guarded by {gtexts}: some tabulated results of a {gridcls} run are not re-ordered")
-        # the loop dominates the return and follows the iteration loop
+        conds = [(t_, p_) for t_, p_, _ in RS_.conditions(cst, resolve=False)] + [(t_, True) for t_ in filt]
+        pos = [t_ for t_, p_ in conds if p_]
+        okg = all(t_.startswith("isinstance(") for t_, _ in conds) and any(t_ == f"isinstance({recv}, TABresult)" for t_ in pos) and \
+            any(t_ == f"isinstance(grid, {gridcls})" for t_ in pos) and all(t_.startswith("isinstance(grid, ") for t_, p_ in conds if not p_)
+        r3.check(okg, f".{meth}() is applied to every TABresult when the k-set is a {gridcls}", runf, c,
+                 f".{meth}() is guarded by {conds}: some tabulated results of a {gridcls} run are not re-ordered")
+        # the re-ordering lies on every path to the return
+        top_ = cst
+        while pm.get(top_) is not runf.node and top_ in pm:
+            top_ = pm[top_]
         for rt in rets:
-            r3.check(cfg.dominates(cfg.node(fl), cfg.node(rt)),
-                     "re-ordering loop lies on every path to the return", runf, rt,
-                     f"a path reaches `{norm1(rt)}` without passing the .{meth}() re-ordering loop",
-                     path=cfg.describe_path(cfg.path_avoiding(cfg.entry, cfg.node(rt), [cfg.node(fl)]) or []))
+            r3.check(cfg.dominates(cfg.node(top_), cfg.node(rt)),
+                     "re-ordering lies on every path to the return", runf, rt,
+                     f"a path reaches `{norm1(rt)}` without passing the .{meth}() re-ordering",
+                     path=cfg.describe_path(cfg.path_avoiding(cfg.entry, cfg.node(rt), [cfg.node(top_)]) or []))
         if meth == "self_to_path":
             a = c.args[0] if c.args else (c.keywords[0].value if c.keywords else None)
             r3.check(a is not None and is_name(a, "grid"), "self_to_path receives run()'s own path", runf, c,
